@@ -388,21 +388,25 @@ def asDict (env : Env) (p : Prim) : R Dict :=
   | .ok (.dict d) => .ok d
   | .ok _ => .error .other
 
+/-- `FromDict::from_dict` as derived -/
+def readStructD (cfg : Cfg) (sem : Sem) (env : Env) (S : Schema) (d : Dict) : R Val :=
+  match (match S.typeName with
+         | some t => expect d "Type" t S.typeRequired
+         | none => .ok ()) with
+  | .error e => .error e
+  | .ok () =>
+    match expectAll d S.checks with
+    | .error e => .error e
+    | .ok () =>
+      match readFields cfg sem env S.fields d [] none with
+      | .error e => .error e
+      | .ok (vals, _, oth) => .ok (.struct vals (oth.getD []))
+
+/-- `Object::from_primitive` as derived: `Dictionary::from_primitive`, then `from_dict` -/
 def readStruct (cfg : Cfg) (sem : Sem) (env : Env) (S : Schema) (p : Prim) : R Val :=
   match asDict env p with
   | .error e => .error e
-  | .ok d =>
-    match (match S.typeName with
-           | some t => expect d "Type" t S.typeRequired
-           | none => .ok ()) with
-    | .error e => .error e
-    | .ok () =>
-      match expectAll d S.checks with
-      | .error e => .error e
-      | .ok () =>
-        match readFields cfg sem env S.fields d [] none with
-        | .error e => .error e
-        | .ok (vals, _, oth) => .ok (.struct vals (oth.getD []))
+  | .ok d => readStructD cfg sem env S d
 
 /-- `indirect`: keep a reference, put anything else into a new object -/
 def indirectOf (f : Field) (p : Prim) : Prim :=
@@ -686,6 +690,52 @@ def pathDefault (schemas : List Schema) (dx : String) : Option Val :=
     | none => none
   | _ => none
 
+/-- `PagesNode::from_primitive` (object/types.rs): resolve once, must be a dictionary, `/Type` is *removed* and
+    decides between `t!(Page::from_dict(..))` and `t!(PageTree::from_dict(..))`. Value: the tag paired with the struct. -/
+def readPagesNode (cfg : Cfg) (schemas : List Schema) (inner : Sem) (env : Env) (p : Prim) : R Val :=
+  match resolve1 env p with
+  | .error e => .error e
+  | .ok (.dict d) =>
+    match dget "Type" d with
+    | none => .error (.missingEntry "Type")
+    | some (.name t) =>
+      let d' := derase "Type" d
+      if t = "Page" then
+        match findSchema "Page" schemas with
+        | some S =>
+          match readStructD cfg inner env S d' with
+          | .ok v => .ok (.pair (.leaf (.name "Page")) v)
+          | .error e => .error (.tryE e)
+        | none => .error .oof
+      else if t = "Pages" then
+        match findSchema "PageTree" schemas with
+        | some S =>
+          match readStructD cfg inner env S d' with
+          | .ok v => .ok (.pair (.leaf (.name "Pages")) v)
+          | .error e => .error (.tryE e)
+        | none => .error .oof
+      else .error .other
+    | some _ => .error .other
+  | .ok _ => .error .other
+
+def writePagesNode (schemas : List Schema) (inner : Sem) : Val → R Prim
+  | .pair (.leaf (.name t)) v =>
+    match findSchema (if t = "Page" then "Page" else "PageTree") schemas with
+    | some S => writeStruct inner S v
+    | none => .error .oof
+  | _ => .error .other
+
+/-- `PagesRc::from_primitive` / `PageRc::from_primitive`: `t!(RcRef::<PagesNode>::from_primitive(p))`, then the
+    variant test (`WrongDictionaryType` otherwise) -/
+def readPagesRc (cfg : Cfg) (schemas : List Schema) (inner : Sem) (env : Env) (want : String) (p : Prim) : R Val :=
+  if p.isRef then
+    match getTyped env (fun q => readPagesNode cfg schemas inner env q) p with
+    | .error e => .error (.tryE e)
+    | .ok (.pair (.leaf (.name t)) v) =>
+      if t = want then .ok (.indirect p (.pair (.leaf (.name t)) v)) else .error .other
+    | .ok _ => .error .other
+  else .error (.tryE .other)
+
 /-- one more level of derived models on top of `inner` -/
 def structSem (cfg : Cfg) (schemas : List Schema) (inner : Sem) : Sem where
   rd := fun env s p =>
@@ -702,6 +752,9 @@ def structSem (cfg : Cfg) (schemas : List Schema) (inner : Sem) : Sem where
       match findSchema n schemas with
       | some S => readStruct cfg inner env (S.inst t) p
       | none => .error .oof
+    | .leaf "PagesNode" => readPagesNode cfg schemas inner env p
+    | .leaf "PagesRc" => readPagesRc cfg schemas inner env "Pages" p
+    | .leaf "PageRc" => readPagesRc cfg schemas inner env "Page" p
     | s => inner.rd env s p
   wr := fun s v =>
     match s with
@@ -717,6 +770,11 @@ def structSem (cfg : Cfg) (schemas : List Schema) (inner : Sem) : Sem where
       match findSchema n schemas with
       | some S => writeStruct inner (S.inst t) v
       | none => .error .oof
+    | .leaf "PagesNode" => writePagesNode schemas inner v
+    | .leaf "PagesRc" | .leaf "PageRc" =>
+      match v with
+      | .indirect r _ => .ok r
+      | _ => .error .other
     | s => inner.wr s v
   dflt := fun dx acc =>
     match pathDefault schemas dx with
